@@ -433,4 +433,50 @@ theorem walker_split_in_block (A B : Cigar) (mop m pos start : Nat) (hm : isMatc
   have := locate_in_block A B mop m pos 0 start 0 hm hin
   simpa using this
 
+/-! ## non-vacuity: the hypotheses of the theorems above are satisfiable (concrete instances) -/
+
+section NonVacuity
+/-- reference `GGGAGGGT`, read carrying the ALT `C` of the SNV `A>C` at 3, CIGAR `2S 7M 1H` starting at 0 -/
+private def Rf : Seq := ['G', 'G', 'G', 'A', 'G', 'G', 'G', 'T']
+private def qry : Seq := ['T', 'T', 'G', 'G', 'G', 'C', 'G', 'G', 'G']
+
+example : realign true lev ⟨3, ['A'], [['C']]⟩ none qry ([(4, 2)] ++ (0, 7) :: [(5, 1)]) [(4, 2)].length
+    (3 - (0 + refLen [(4, 2)])) ((qLen [(4, 2)] + (3 - (0 + refLen [(4, 2)])) : Nat) : Int) Rf 2 = .ok (some 1) :=
+  realign_snv_mnp_correct true Rf qry 3 ['A'] ['C'] 1 (by decide) [(4, 2)] [(5, 1)] 0 7 0 2 rfl (by decide) rfl (by decide)
+    (by decide) (by decide) (by decide) ⟨by decide, by decide⟩ (by decide) (Or.inl (by decide)) (Or.inl (by decide)) (by decide)
+
+/-- truncated window: the read starts one base before the variant (left pad of 1 instead of 2) -/
+example : realign true lev ⟨3, ['A'], [['C']]⟩ none ['G', 'C', 'G', 'G', 'G'] ([] ++ (0, 5) :: []) ([] : Cigar).length
+    (3 - (2 + refLen [])) ((qLen [] + (3 - (2 + refLen [])) : Nat) : Int) Rf 2 = .ok (some 1) :=
+  realign_snv_mnp_correct true Rf ['G', 'C', 'G', 'G', 'G'] 3 ['A'] ['C'] 1 (by decide) [] [] 0 5 2 2 rfl (by decide) rfl
+    (by decide) (by decide) (by decide) (by decide) ⟨by decide, by decide⟩ (by decide) (Or.inr (by decide)) (Or.inl (by decide))
+    (by decide)
+
+/-- a tie: the query `GG` is equally far from `GAG`-like paddings (here REF `A`, ALT `C`, query base `T`) -/
+example : realign true lev ⟨3, ['A'], [['C']]⟩ none ['G', 'G', 'G', 'T', 'G', 'G', 'G'] [(0, 7)] 0 3 3 Rf 2 = .ok none :=
+  realign_sound_tie true lev _ _ _ 0 3 3 Rf 2 ⟨['G', 'G', 'T', 'G', 'G'], [['G', 'G', 'A', 'G', 'G'], ['G', 'G', 'C', 'G', 'G']]⟩
+    (by decide) (by rfl) _ _ rfl (by
+      show lev ['G', 'G', 'T', 'G', 'G'] ['G', 'G', 'A', 'G', 'G'] = lev ['G', 'G', 'T', 'G', 'G'] ['G', 'G', 'C', 'G', 'G']
+      have h1 : lev ['G', 'G', 'T', 'G', 'G'] ['G', 'G', 'A', 'G', 'G'] = 1 := by
+        rw [← levFast_eq_lev ['G', 'G', 'T', 'G', 'G'] ['G', 'G', 'A', 'G', 'G']]; rfl
+      have h2 : lev ['G', 'G', 'T', 'G', 'G'] ['G', 'G', 'C', 'G', 'G'] = 1 := by
+        rw [← levFast_eq_lev ['G', 'G', 'T', 'G', 'G'] ['G', 'G', 'C', 'G', 'G']]; rfl
+      rw [h1, h2])
+
+example : cigarPrefixLength true [(4, 3), (0, 2), (1, 2), (2, 1), (0, 4), (3, 9), (0, 5)] 5
+    = .ok (countRef (takeRef 5 (expand [(4, 3), (0, 2), (1, 2), (2, 1), (0, 4), (3, 9), (0, 5)])),
+           countQuery (takeRef 5 (expand [(4, 3), (0, 2), (1, 2), (2, 1), (0, 4), (3, 9), (0, 5)]))) :=
+  prefixLength_spec _ (by decide) (by decide) 5 (by decide)
+
+example : iterateCigar [3, 10, 12, 14, 30] 0 5 [(4, 2), (0, 4), (1, 2), (0, 2), (2, 3), (3, 10), (0, 8)]
+    = (([(0, 3), (1, 10), (2, 12), (3, 14), (4, 30)] : List VarRef).filterMap (fun v =>
+        (locate v.2 0 5 0 [(4, 2), (0, 4), (1, 2), (0, 2), (2, 3), (3, 10), (0, 8)]).map (yieldOfLoc v)), none) :=
+  iterateCigar_spec _ 0 5 _ (by decide) (by decide)
+
+/-- what that walk yields: 10 in the second M (query 9), 12 in the D (query 10), 30 in the last M; 3 lies left of the read,
+14 … 23 inside the N -/
+example : iterateCigar [3, 10, 12, 14, 30] 0 5 [(4, 2), (0, 4), (1, 2), (0, 2), (2, 3), (3, 10), (0, 8)]
+    = ([⟨1, 3, 1, 9⟩, ⟨2, 4, 1, 10⟩, ⟨4, 6, 6, 16⟩], none) := by decide
+end NonVacuity
+
 end WhVerif.Props.C06
